@@ -9,6 +9,8 @@
 From Coq Require Import Permutation.
 From RS Require Import Lib.Tac Lib.Outcome Policy.PolicyAst Policy.Sort Policy.Compile Policy.Satisfy
   Policy.Sem Policy.Cost Policy.Run Policy.Examples.
+From RS Require Ty.Ty Core.Prog Core.Term Core.Typing Core.Sem Core.Bounds Core.Limits Core.Machine
+  Policy.Bridge Policy.BridgeSat Policy.BridgeMachine Policy.BridgeExample Policy.BridgeJets Jets.JetSpec.
 Import ListNotations.
 Local Open Scope N_scope.
 
@@ -188,3 +190,121 @@ Print Assumptions C16_normalized_holds.
 Theorem C16_sort_old_refuted : exists p q, perm_equiv p q /\ sort_old p <> sort_old q.
 Proof. exact sort_old_refuted. Qed.
 Print Assumptions C16_sort_old_refuted.
+
+(* ---- 4. the link to the Bit Machine (Policy/Bridge*.v, Core/*.v) --------------------------------
+   Policy/Sem.v above is a private mini-semantics.  [Bridge.xl] translates the satisfier's programs
+   into the terms of Core/Term.v with their arrows (directed by the source type; 1 at the root),
+   [Bridge.enc] lays the abstract values out in bits.  Parameters: the bit layouts of signatures,
+   preimages, the sighash and SHA-256 contexts, the bytes of roots and fail entropies, the jet ids;
+   [jets_agree]: the machine-level jet semantics [cj] yields the encoding of what the policy-level
+   oracle yields (the same oracle on both sides). *)
+
+(* the translation is well typed in Core/Typing.v *)
+Theorem C16_xl_typed : forall (H : Type) (h_bytes : H -> list N) (entropy : N -> list N)
+    (sig_bits pre_bits : N -> list bool) (jid : jet -> N),
+  (forall k, length (sig_bits k) = 512%nat) -> (forall h, length (pre_bits h) = 256%nat) ->
+  forall cj_ty : N -> option Prog.arrow, (forall j, cj_ty (jid j) = Some (Bridge.jsrc j, Bridge.jtgt j)) ->
+  forall (n : node H) A t B,
+    Bridge.xl h_bytes entropy sig_bits pre_bits jid n A = Some (t, B) -> Typing.typed cj_ty t A B.
+Proof. exact Bridge.xl_typed. Qed.
+Print Assumptions C16_xl_typed.
+
+(* the two evaluators agree: whenever the mini-semantics yields u on a well-typed v, the big-step
+   semantics of Core/Sem.v yields the encoding of u on the encoding of v *)
+Theorem C16_xl_eval : forall (H : Type) (h_bytes : H -> list N) (entropy : N -> list N)
+    (sig_bits pre_bits : N -> list bool) (msg_bits : list bool) (ctx_sval : list val -> Ty.sval)
+    (jid : jet -> N) (e : envo) (cj : N -> Ty.sval -> option Ty.sval),
+  Bridge.jets_agree sig_bits pre_bits msg_bits ctx_sval jid e cj ->
+  forall (n : node H) A t B v u,
+    Bridge.xl h_bytes entropy sig_bits pre_bits jid n A = Some (t, B) -> Bridge.vwt v A = true ->
+    eval e n v = Some u ->
+    RS.Core.Sem.eval cj t (Bridge.enc sig_bits pre_bits msg_bits ctx_sval v)
+      = RS.Core.Sem.ROk (Bridge.enc sig_bits pre_bits msg_bits ctx_sval u) /\ Bridge.vwt u B = true.
+Proof. exact Bridge.xl_eval. Qed.
+Print Assumptions C16_xl_eval.
+
+(* every program built by satisfy_internal translates at 1 -> 1 (keys and images of 32 bytes,
+   relative timelocks of 16 bits), and so does what Policy::satisfy returns after pruning *)
+Theorem C16_satisfy_translates : forall (H : Type) (hf : hashfns H) (H_eqb : H -> H -> bool)
+    (fin_cost : node H -> option N) (cmax : N) (e : envo) (s : satisfier) (p : policy) (prog : node H),
+  BridgeSat.in_range p -> satisfy hf H_eqb e fin_cost cmax s p = Ok prog ->
+  Bridge.xlty prog Ty.One = Some Ty.One.
+Proof. exact BridgeSat.satisfy_xlty. Qed.
+Print Assumptions C16_satisfy_translates.
+
+(* "the program it returns runs successfully", on the Bit Machine model: for a truthful satisfier
+   the returned program is a well-typed Core term 1 -> 1, evaluates to () in Core/Sem.v, and
+   for_program + exec of Core/Machine.v (the machine as written: every build profile, every
+   initial buffer content) returns Ok with the empty output inside the static bounds, whenever
+   the program passes the machine's limit check and the machine-level jets respect their types *)
+Theorem C16_satisfy_runs_on_machine : forall (H : Type) (hf : hashfns H) (H_eqb : H -> H -> bool),
+  (forall a, H_eqb a a = true) ->
+  forall (fin_cost : node H -> option N) (cmax : N) (e : envo)
+    (h_bytes : H -> list N) (entropy : N -> list N) (sig_bits pre_bits : N -> list bool)
+    (msg_bits : list bool) (ctx_sval : list val -> Ty.sval) (jid : jet -> N),
+  (forall k, length (sig_bits k) = 512%nat) -> (forall h, length (pre_bits h) = 256%nat) ->
+  forall cj_ty : N -> option Prog.arrow, (forall j, cj_ty (jid j) = Some (Bridge.jsrc j, Bridge.jtgt j)) ->
+  forall cj : N -> Ty.sval -> option Ty.sval,
+  Bridge.jets_agree sig_bits pre_bits msg_bits ctx_sval jid e cj ->
+  RS.Core.Sem.jets_typed cj_ty cj ->
+  forall (s : satisfier) (p : policy) (prog : node H),
+  truthful e s -> BridgeSat.in_range p ->
+  satisfy hf H_eqb e fin_cost cmax s p = Ok prog ->
+  exists t, Bridge.xl h_bytes entropy sig_bits pre_bits jid prog Ty.One = Some (t, Ty.One) /\
+    Typing.typed cj_ty t Ty.One Ty.One /\ RS.Core.Sem.eval cj t Ty.SU = RS.Core.Sem.ROk Ty.SU /\
+    forall prof jet_cost m0,
+      Limits.check_program prof (Machine.bw Ty.One) (Machine.bw Ty.One) (Bounds.bounds jet_cost t) = Ok tt ->
+      length m0 = N.to_nat (Machine.machine_cells jet_cost t) ->
+      exists st, Machine.machine_exec prof jet_cost cj t m0 None = Ok (st, []) /\
+                 Machine.hwc st <= Bounds.extra_cells (Bounds.bounds jet_cost t) /\
+                 Machine.hwf st <= Bounds.extra_frames (Bounds.bounds jet_cost t) + Bounds.IO_EXTRA_FRAMES.
+Proof. exact BridgeMachine.satisfy_runs_machine. Qed.
+Print Assumptions C16_satisfy_runs_on_machine.
+
+(* the hypotheses of the link are satisfiable (Policy/BridgeExample.v): an instance with concrete bit
+   layouts, an environment oracle defined through them and machine-level jets as functions on typed
+   values, for which the two jet semantics agree and the machine-level jets respect their types *)
+Theorem C16_bridge_instance_agrees : forall height distance,
+  Bridge.jets_agree BridgeExample.bx_sig_bits BridgeExample.bx_pre_bits BridgeExample.bx_msg_bits
+    BridgeExample.bx_ctx_sval jet_code (BridgeExample.bx_env height distance) (BridgeExample.bx_cj height distance).
+Proof. exact BridgeExample.bx_jets_agree. Qed.
+Print Assumptions C16_bridge_instance_agrees.
+
+Theorem C16_bridge_instance_typed : forall height distance,
+  RS.Core.Sem.jets_typed BridgeExample.bx_cj_ty (BridgeExample.bx_cj height distance).
+Proof. exact BridgeExample.bx_jets_typed. Qed.
+Print Assumptions C16_bridge_instance_typed.
+
+(* ... and for the example policy (a 2-of-3 threshold over a key, an or of a hash and a timelock, an
+   and of a relative timelock and a key) with a truthful satisfier: Policy::satisfy returns a
+   program, it translates to a well-typed Core term, and the Bit Machine model runs it to
+   completion in both build profiles from every initial buffer content *)
+Theorem C16_bridge_example_runs :
+  truthful BridgeExample.bx_ex_env ex_sat /\ BridgeSat.in_range ex_policy /\
+  exists prog t,
+    satisfy free_hf fh_eq BridgeExample.bx_ex_env (fin_cost (H := fh)) CONSENSUS_MAX ex_sat ex_policy = Ok prog /\
+    Bridge.xl BridgeExample.bx_h_bytes BridgeExample.bx_entropy BridgeExample.bx_sig_bits BridgeExample.bx_pre_bits
+      jet_code prog Ty.One = Some (t, Ty.One) /\
+    Typing.typed BridgeExample.bx_cj_ty t Ty.One Ty.One /\
+    forall prof m0, length m0 = N.to_nat (Machine.machine_cells (fun _ => 0) t) ->
+      exists st, Machine.machine_exec prof (fun _ => 0) (BridgeExample.bx_cj 11 4) t m0 None = Ok (st, []).
+Proof. exact (conj BridgeExample.bx_truthful (conj BridgeExample.bx_in_range BridgeExample.bx_runs_on_machine)). Qed.
+Print Assumptions C16_bridge_example_runs.
+
+(* the jets that Policy/Sem.v gives by specification (eq_256, eq_32, add_32, verify) have, on encoded
+   values, exactly the specification of Jets/JetSpec.v (Core ids 45, 46, 1, 357) - the one the C05
+   check compares with the C jets on every run *)
+Theorem C16_policy_jets_are_spec : forall e : envo,
+  (forall a b, a < 2 ^ 256 -> b < 2 ^ 256 ->
+     option_map BridgeExample.bx_enc (jet_sem e Eq256 (VP (VW 256 a) (VW 256 b)))
+     = JetSpec.jet_spec 45 (BridgeExample.bx_enc (VP (VW 256 a) (VW 256 b)))) /\
+  (forall a b, a < 2 ^ 32 -> b < 2 ^ 32 ->
+     option_map BridgeExample.bx_enc (jet_sem e Eq32 (VP (VW 32 a) (VW 32 b)))
+     = JetSpec.jet_spec 46 (BridgeExample.bx_enc (VP (VW 32 a) (VW 32 b)))) /\
+  (forall a b, a < 2 ^ 32 -> b < 2 ^ 32 ->
+     option_map BridgeExample.bx_enc (jet_sem e Add32 (VP (VW 32 a) (VW 32 b)))
+     = JetSpec.jet_spec 1 (BridgeExample.bx_enc (VP (VW 32 a) (VW 32 b)))) /\
+  (forall c, option_map BridgeExample.bx_enc (jet_sem e Verify (vbit c))
+     = JetSpec.jet_spec 357 (BridgeExample.bx_enc (vbit c))).
+Proof. exact BridgeJets.policy_jets_are_spec. Qed.
+Print Assumptions C16_policy_jets_are_spec.
